@@ -416,6 +416,12 @@ def run(chk):
     chk.guard('C08.E', check_step, chk)
     chk.guard('C08.M', check_immutability, chk)
     chk.guard('C08.A', check_arg_list, chk)
+    # the statement count is part of the documented statement semantics: nested invocations count on the shared counter (shared with C09)
+    from . import c09
+    chk.rule('C09.D', 'shared with C09: per-statement increment is a read-modify-write on the shared options object')
+    chk.rule('C09.W', 'shared with C09: who writes the counter')
+    chk.guard('C09.D', c09.check_dominance, chk)
+    chk.guard('C09.W', c09.check_stores, chk)
     # function statement + new invocation per call are C04.R / C04.F
     from .c04 import check_function_statement, check_frames
     chk.rule('C04.R', 'shared with C04: function statement binds a global callable')
